@@ -365,8 +365,9 @@ class Decoder(wiring.Component):
                 if hasattr(sub_bus, "bte"):
                     m.d.comb += sub_bus.bte.eq(getattr(self.bus, "bte", BurstTypeExt.LINEAR))
 
-                granularity_bits = exact_log2(self.bus.data_width // self.bus.granularity)
-                with m.Case(sub_pat[:-granularity_bits if granularity_bits > 0 else None]):
+                # The pattern spans the memory map address width (at least 1 bit); keep only the
+                # bits that correspond to the bus address, dropping the granularity bits.
+                with m.Case(sub_pat[:self.bus.addr_width]):
                     m.d.comb += [
                         sub_bus.cyc.eq(self.bus.cyc),
                         self.bus.dat_r.eq(sub_bus.dat_r),
